@@ -256,12 +256,17 @@ def modifyMigrationAttrs (id : Ident) (e : Ent) : ModRes :=
     | none => .deny
   | _ => .ignore
 
+/-- `constrain_attrs` of `modify_protected_entry_attrs` (modify.rs l.401–467): the attributes the
+protected rules leave open on an entry with these classes. -/
+def protectedOpenAttrs (classes : List Nat) : List Nat :=
+  protectedConstrainTable.foldl
+    (fun acc row => if classes.contains row.1 then acc ++ row.2 else acc) []
+
 /-- `modify_protected_entry_attrs` (modify.rs l.391). -/
 def modifyProtectedEntryAttrs (classes : List Nat) : ModRes :=
   if !disjoint classes lockedEntryClasses then .deny
   else
-    let constrainAttrs := protectedConstrainTable.foldl
-      (fun acc row => if classes.contains row.1 then acc ++ row.2 else acc) []
+    let constrainAttrs := protectedOpenAttrs classes
     if constrainAttrs.isEmpty then .deny
     else .constrain constrainAttrs constrainAttrs none none
 
